@@ -54,33 +54,37 @@ RANDOM_WINDOW = 16
 
 # name -> (family, constructor or None (= catalogue entry of that name), options)
 #   dq/dt: depth quick/thorough; kq/kt: reset keys; quick: part of the quick tier; heavy: expensive eager calls
+RW_TINY = catalog.RW_TINY
 MODELS: Dict[str, Dict[str, Any]] = {
     "game2048-2x2": dict(fam="game_2048", dq=6, dt=8),
-    "graphcol-4": dict(fam="graph_coloring"),
+    "graphcol-4": dict(fam="graph_coloring", dt=5),
     "mines-4x3-11": dict(fam="minesweeper", dt=4),
     "mines-3x3-2": dict(fam="minesweeper", quick=False, dt=4),
     "rubik-2-T1": dict(fam="rubiks_cube", dt=3),
-    "rubik-3-T2": dict(fam="rubiks_cube", quick=False, dt=3),
+    "rubik-3-T2": dict(fam="rubiks_cube", quick=False, dt=4),
     "slide-3-sparse-T3": dict(fam="sliding_tile_puzzle", dq=4, dt=6),
-    "sudoku-near": dict(fam="sudoku"),
+    "sudoku-near": dict(fam="sudoku", dt=4),
     "binpack-5": dict(fam="bin_pack", dq=2, dt=3, kq=1, kt=2, heavy=True),
-    "flatpack-1x3-block": dict(fam="flat_pack", dq=4),
-    "jobshop-2311": dict(fam="job_shop", dt=4),
+    "flatpack-1x3-block": dict(fam="flat_pack", dq=4, dt=5),
+    "jobshop-2311": dict(fam="job_shop", dt=3),
     "knapsack-4-tight": dict(fam="knapsack", dt=5),
     "tetris-6x5-T1": dict(fam="tetris", dt=3),
     "tetris-4x7-T2": dict(fam="tetris", quick=False, dt=4),
-    "cleaner-5x3x2-T3": dict(fam="cleaner", dq=4, dt=4),
-    "connector-3x2-T3": dict(fam="connector", dq=4, dt=4),
+    "cleaner-5x3x2-T3": dict(fam="cleaner", dq=3, dt=4),
+    "connector-3x2-T2": dict(fam="connector", ctor="Connector(G.connector.UniformRandomGenerator(3, 2), time_limit=2)",
+                             dq=4, dt=4, kq=1, kt=2),
     "cvrp-3-sparse-tight": dict(fam="cvrp", dt=5),
-    "lbf-5-fov1-T2": dict(fam="lbf", dt=3),
+    "lbf-5-fov1-T2": dict(fam="lbf", dq=4, dt=4, kq=1, kt=2),
     "maze-5x5-T2": dict(fam="maze", ctor="Maze(G.maze.RandomGenerator(5, 5), time_limit=2)", dq=4, dt=6),
     "maze-toy-T3": dict(fam="maze", quick=False, dt=6),
-    "mmst-12-T1": dict(fam="mmst", dt=4),
+    "mmst-12-T1": dict(fam="mmst", dt=3, kq=1, kt=2),
     "mmst-12-T2": dict(fam="mmst", ctor="MMST(G.mmst.SplitRandomGenerator(12, 18, 4, 2, 3, 2), time_limit=2)",
-                       quick=False, dt=4),
-    "mcvrp-6x2": dict(fam="multi_cvrp", dt=3, kq=1, kt=2),
-    "pacman-T3": dict(fam="pac_man", dq=4, dt=6, kq=1, kt=2, heavy=True),
-    "rware-tiny-T3": dict(fam="robot_warehouse", dq=4, dt=4, kq=1, kt=2, heavy=True),
+                       quick=False, dt=4, kt=2),
+    "mcvrp-6x2": dict(fam="multi_cvrp", dq=5, dt=6, kq=2, kt=3, alphabet="mcvrp-greedy"),
+    "pacman-T2": dict(fam="pac_man", ctor="PacMan(time_limit=2)", dq=4, dt=5, kq=1, kt=2, heavy=True),
+    "rware-tiny-T2": dict(fam="robot_warehouse",
+                          ctor=f"RobotWarehouse(G.robot_warehouse.RandomGenerator({RW_TINY}), time_limit=2)",
+                          dq=4, dt=4, kq=1, kt=2, heavy=True),
     "snake-4x4-T1": dict(fam="snake", dt=5),
     "snake-5x2-T3": dict(fam="snake", quick=False, dt=6),
     "sokoban-toy-sparse-T2": dict(fam="sokoban", dq=4, dt=6),
@@ -218,6 +222,45 @@ def pick_alphabet(env: Any, keys: Sequence[int], threshold: int, limit: int = 12
                 picked_ending_at_first_root=[i for i in pick if last[i]],
                 full_continuing_at_first_root=int(len(cont)), full_ending_at_first_root=int(len(end)))
     return A[pick], info
+
+
+def mcvrp_alphabet(env: Any, keys: Sequence[int]) -> Tuple[np.ndarray, Dict[str, Any]]:
+    """MultiCVRP episodes need >= 4 cooperative steps: the alphabet is made of the joint actions of a
+    greedy mask-following schedule from every root (so that episode ends are reachable within the depth
+    bound) plus two actions that are illegal at the first root (both vehicles to the same customer, and
+    the out-of-range node index the action spec admits)."""
+    import jax
+    import jax.numpy as jnp
+
+    from mc.engine import all_actions
+
+    A = all_actions(env.action_spec)
+    dt = A.dtype
+    step, reset = jax.jit(env.step), jax.jit(env.reset)
+    picked: List[Tuple[int, ...]] = []
+    lens = []
+    for k in keys:
+        s, ts = reset(jax.random.PRNGKey(int(k)))
+        for t in range(16):
+            m = np.asarray(ts.observation.action_mask)
+            a, used = [], set()
+            for v in range(m.shape[0]):
+                c = [j for j in range(1, m.shape[1]) if m[v, j] and j not in used]
+                a.append(c[0] if c else 0)
+                used.add(a[-1])
+            if tuple(a) not in picked:
+                picked.append(tuple(a))
+            s, ts = step(s, jnp.asarray(a, dt))
+            if int(ts.step_type) == 2:
+                lens.append(t + 1)
+                break
+    hi = int(np.asarray(env.action_spec.maximum).max())
+    for extra in ((1,) * A.shape[1], (hi,) * A.shape[1]):
+        if extra not in picked:
+            picked.append(extra)
+    picked = picked[:12]
+    return np.asarray(picked, dt), {"alphabet_full": int(len(A)), "alphabet": "subset(greedy schedule + 2 illegal)",
+                                    "picked_actions": [list(p) for p in picked], "greedy_episode_lengths": lens}
 
 
 # ---------------------------------------------------------------------------------------------
@@ -724,7 +767,10 @@ def run_model(model: str, tier: str, seed: int) -> Dict[str, Any]:
     heavy = bool(opts.get("heavy"))
     keys = list(range(opts.get("kq", 2) if quick else opts.get("kt", 4)))
     D = opts.get("dq", 3) if quick else opts.get("dt", opts.get("dq", 3) + 1)
-    actions, ainfo = pick_alphabet(env, keys, threshold=31 if quick else 50)
+    if opts.get("alphabet") == "mcvrp-greedy":
+        actions, ainfo = mcvrp_alphabet(env, keys)
+    else:
+        actions, ainfo = pick_alphabet(env, keys, threshold=31 if quick else 50)
     nA = len(actions)
     if not quick:
         while D > 3 and len(keys) * nA ** D > 400_000:
